@@ -148,6 +148,7 @@ enum answer_override {
 	AO_SILENCE, /* do not answer at all */
 	AO_CLOSE, /* close the connection without answering */
 	AO_NEW_SESSION, /* the cache restarts: new session id (+ optionally new data), then answers normally */
+	AO_RAW, /* answer with bytes produced by cfg.rawgen (fuzzing) */
 };
 
 struct xplan { /* plan for the answer to one query */
@@ -172,7 +173,7 @@ enum chunking { CH_MAX = 0, CH_ONE = 1, CH_RANDOM = 2, CH_HEADER_SPLIT = 3 };
 
 struct tevent { /* timed cache-side event */
 	time_t at;
-	uint8_t kind; /* 1 = data change (param = how many records flip), 2 = serial notify, 3 = cache restart (new session), 4 = cache becomes version-0-only (param = v0_mode), 5 = cache obtains data */
+	uint8_t kind; /* 7 = raw bytes from cfg.rawgen delivered while the client idles; 1 = data change (param = how many records flip), 2 = serial notify, 3 = cache restart (new session), 4 = cache becomes version-0-only (param = v0_mode), 5 = cache obtains data */
 	uint32_t param;
 	bool done;
 };
@@ -237,6 +238,7 @@ struct exchange {
 		int code, alt;
 	} cand[16];
 	bool answer_reset, answer_error, truncated;
+	bool content_unknown; /* the response carries records outside the model universe (fuzzing): content verdicts are skipped */
 	int answer_err_code, answer_err_ver;
 };
 
@@ -249,6 +251,8 @@ struct mevent {
 	bool done;
 };
 #define MAX_MEV 64
+
+struct sim;
 
 struct simcfg {
 	unsigned int refresh, expire, retry;
@@ -269,6 +273,10 @@ struct simcfg {
 	long stop_at_parkable; /* park at the k-th parkable call (recv/cancellable sleep), wherever it is; 0 = none */
 	bool c08_mode; /* end when now >= last disturbance + bound */
 	bool others; /* populate two other sources */
+	/* fuzzing: raw answer bytes for queries with override AO_RAW, and raw bytes delivered while the client idles */
+	size_t (*rawgen)(struct sim *s, uint8_t *out, size_t cap, uint64_t fuzz_seed, int where);
+	uint64_t fuzz_seed;
+	bool raw_close_after;
 	/* outage window (virtual seconds relative to scenario start) for the expiry scenarios */
 	time_t outage_from, outage_until;
 	int outage_dur_class; /* evidence only */
@@ -286,6 +294,7 @@ struct wire {
 struct sim {
 	/* identity */
 	struct rng rng;
+	struct rng chunk_rng; /* read / write segmentation must not perturb the scenario's other random choices */
 	struct universe *u;
 	struct simcfg cfg;
 	struct cache_model cache;
@@ -312,6 +321,9 @@ struct sim {
 	long parkable_calls;
 	long queries; /* complete queries seen */
 	long opens;
+	int random_faults_fired; /* random transport faults are a finite budget, else a client that never gets a query through is disturbed forever */
+	long queries_same_second; /* queries answered without virtual time advancing */
+	time_t t_last_query;
 	long idle_calls; /* transport calls since virtual time last advanced or input was consumed */
 	time_t t_start, t_phase_start;
 	time_t t_last_disturbance;
@@ -350,6 +362,7 @@ struct sim {
 	} states[MAX_STATES];
 	int nstates;
 	uint64_t trace_hash;
+	uint64_t sent_hash; /* running hash over every byte the client wrote */
 	/* phase control */
 	volatile bool finished; /* park at next parkable point */
 	volatile bool parked;
@@ -369,7 +382,7 @@ struct sim {
 	const bset *presets_p, *presets_k;
 	int npresets, preset_next;
 	bool restart_every_poll;
-	void (*on_reset_answer)(void);
+	void (*on_reset_answer)(struct sim *s);
 };
 
 /* update-callback replay sets (whole table, all sources) */
